@@ -329,6 +329,7 @@ def seed_acl(rng, plat, n=None, numbered=None, groups=True, headings=True, multi
     pool = [native_only(ln, plat) for ln in pool]
     if plat == "ios":      # a port listed twice (by number and by name, or repeated) is still one port
         pool = [dup_port(rng, ln) if rng.random() < 0.12 else ln for ln in pool]
+        pool = [zero_port(rng, ln) if rng.random() < 0.05 else ln for ln in pool]
     for k, ln in enumerate(pool[:n]):
         if headings and rng.random() < 0.25:
             lines.append("remark " + rng.choice(HEADINGS + ["plain note", "= H1, details"]))
@@ -367,6 +368,15 @@ def dup_port(rng, line):
     for k in range(len(t) - 1):
         if t[k] in ("eq", "neq") and t[k + 1].isdigit() and (k + 2 >= len(t) or not t[k + 2].isdigit()):
             return " ".join(t[: k + 2] + [t[k + 1]] + t[k + 2:])
+    return line
+
+
+def zero_port(rng, line):
+    """port 0 (valid, reserved) put in front of an eq / neq operand list"""
+    t = line.split()
+    for k in range(len(t) - 1):
+        if t[k] in ("eq", "neq") and t[k + 1].isdigit() and t[k + 1] != "0":
+            return " ".join(t[: k + 1] + ["0"] + t[k + 1:])
     return line
 
 
